@@ -95,6 +95,23 @@ def lake_build(targets):
     return res
 
 
+def run_translators(v, names):
+    """regenerate lean/CbGen/*.lean from the working tree; a translator that cannot recognise the
+    source is a failed obligation (the committed snapshot of the table stays in place)"""
+    failed = []
+    with LeanLock():
+        for n in names:
+            e = dict(os.environ)
+            e["CB_VERIF_SRC"] = SRC
+            r = run([sys.executable, os.path.join(ROOT, "tools", "translate", n + ".py")], env=e)
+            ok = r.returncode == 0
+            v.obligation("translator:" + n, ok, r.stdout.strip()[-300:])
+            if not ok:
+                failed.append("translator:" + n)
+                log(r.stdout)
+    return failed
+
+
 def driver_path():
     return os.path.join(LEAN, ".lake", "build", "bin", "cbdriver")
 
